@@ -543,7 +543,17 @@ def install_top(reg, src):
             c.ensures("value", post)
 
 
+def install_bounded_entry(reg):
+    reg.bounded_checks.setdefault("C01", []).append({
+        "name": "dict-entry", "script": "bounded_entry.py", "timeout": 300,
+        "bound": "focus pool (~120 expressions) x 3 variable lists x 5 dictionaries with the same values (insertion order of V, "
+                 "reversed, shuffled, an extra key first / last) x 1 point, compared with an independent evaluator",
+        "why": "compile_to_dict_function (the dict-input wrapper around the proved compile_expression) has no contract: dictionary "
+               "insertion order and len() of a symbolic dict are outside the executor's model"})
+
+
 def install_replay(reg, src):
+    install_bounded_entry(reg)
     import random as _random
     import sys as _sys, os as _os
     _sys.path.insert(0, _os.path.join(_os.path.dirname(_os.path.dirname(_os.path.abspath(__file__))), "native"))
